@@ -1,11 +1,11 @@
 """C17 — T-flag duplicates of answered requests are rejected, no others (Mon_C17.tla)"""
 from . import nodecommon as nc
-from .c17_plan import PROFILE, plans, ASSUME
+from .c17_plan import PROFILE, plans, ASSUME, enum_plans
 
 
 def run(tier, seed):
     mc, sim = plans(tier)
-    ck = nc.run_property("C17", tier, seed, "Inv17", PROFILE, mc, sim, 1500 if tier == "thorough" else 240, ASSUME)
+    ck = nc.run_property("C17", tier, seed, "Inv17", PROFILE, mc, sim, 1500 if tier == "thorough" else 240, ASSUME, enum_plan=enum_plans(tier))
     return ck.finish()
 
 
